@@ -27,7 +27,7 @@ from exabgp.bgp.message.open import RouterID, Version
 from exabgp.bgp.message.open.capability import Capabilities, Negotiated
 from exabgp.bgp.message.refresh import RouteRefresh
 from exabgp.bgp.message.update import UpdateCollection
-from exabgp.bgp.message.update.attribute import Attribute, AttributeCollection
+from exabgp.bgp.message.update.attribute import AttributeCollection
 from exabgp.logger import lazymsg, log
 
 # from exabgp.reactor.network.error import NotifyError
@@ -310,10 +310,9 @@ class Protocol:
         if message.TYPE == Notification.TYPE:
             raise cast(Notification, message)
 
-        if isinstance(message, Update) and Attribute.CODE.INTERNAL_DISCARD in message.data.attributes:
-            return _IGNORED
-        else:
-            return message
+        # RFC 7606 attribute discard: the malformed attribute was dropped while parsing,
+        # the rest of the UPDATE is processed as usual
+        return message
 
     def validate_open(self) -> None:
         error: tuple[int, int, str] | None = self.negotiated.validate(self.neighbor)
